@@ -348,6 +348,33 @@ def random_case(rng, maxdim=12):
     return (rows, cols, width, height, [(False, o) for o in ops])
 
 
+def enclosure_cases(tier):
+    """Directed two-step histories: merge an inner region, then request a merge whose block
+    strictly encloses it (every corner orientation), plus border-touching controls.  Needs a
+    table of at least 3x4 / 4x3, which the depth-bounded exhaustive sweep of the quick tier
+    (shapes up to 3x3) never reaches."""
+    shapes = [(3, 4), (4, 3), (4, 4), (4, 5), (5, 5)] if tier == "quick" else \
+             [(3, 4), (4, 3), (4, 4), (4, 5), (5, 4), (5, 5), (5, 6), (6, 6)]
+    out = []
+    for rows, cols in shapes:
+        base = init_text_ops(rows, cols)
+        for r1 in range(1, rows - 1):
+            for r2 in range(r1, rows - 1):
+                for c1 in range(1, cols - 1):
+                    for c2 in range(c1, cols - 1):
+                        if (r2 - r1 + 1) * (c2 - c1 + 1) < 2:
+                            continue
+                        inner = ("M", r1, c1, r2, c2)
+                        outers = {(r1 - 1, c1 - 1, r2 + 1, c2 + 1), (0, 0, rows - 1, cols - 1),
+                                  (r1 - 1, c1 - 1, rows - 1, cols - 1), (0, 0, r2 + 1, c2 + 1),
+                                  (r1, c1 - 1, r2, c2 + 1), (r1 - 1, c1, r2 + 1, c2)}   # last two: partial, touch the border
+                        for (a, b, c, d) in sorted(outers):
+                            for o in (("M", a, b, c, d), ("M", c, d, a, b), ("M", a, d, c, b), ("M", c, b, a, d)):
+                                out.append((rows, cols, 1000 * cols + 1, 700 * rows + 1,
+                                            base + [(False, inner), (False, o), (False, ("S", r1, c1))]))
+    return out
+
+
 def new_cases(tier):
     if tier == "quick":
         dims = range(1, 7)
@@ -548,6 +575,8 @@ def run(ck, tier, rng):
         # 2. random histories on tables up to 12x12
         rand = [random_case(rng) for _ in range(600 if quick else 8000)]
         run_jobs([("cases", "rand", ch) for ch in chunks(rand, 100)])
+        # 2b. directed enclosure histories (a merge strictly enclosing an existing merged region)
+        run_jobs([("cases", "enclosure", ch) for ch in chunks(enclosure_cases(tier), 100)])
         # 3. creation sweep
         run_jobs([("cases", "new", ch) for ch in chunks(new_cases(tier), 2000)])
         # 4. malformed stream
